@@ -9,9 +9,18 @@ using namespace wl;
 
 namespace {
 
-const std::string kToken = "s3cr3t-Token_42";
+// the configured token of a run: length from the plan (1..512, around the sizes at which length arithmetic wraps), content seeded
+std::string run_token(const Plan& p) {
+    const std::size_t len = static_cast<std::size_t>(p.knob("token_len", 15));
+    if (len == 15) return "s3cr3t-Token_42";
+    sk::Rng g(static_cast<std::uint64_t>(p.knob("token_seed", 1)));
+    static const char alphabet[] = "abcdefghijklmnopqrstuvwxyzABCDEFGHIJKLMNOPQRSTUVWXYZ0123456789-_";
+    std::string t;
+    for (std::size_t i = 0; i < len; ++i) t.push_back(alphabet[g.below(sizeof alphabet - 1)]);
+    return t;
+}
 
-std::string token_variant(int kind) {
+std::string token_variant(int kind, const std::string& kToken, std::int64_t n) {
     switch (kind) {
         case 0: return kToken;
         case 2: return "not-the-token";
@@ -21,21 +30,28 @@ std::string token_variant(int kind) {
         case 6: return kToken + " ";
         case 7: return "";
         case 8: return kToken + kToken;
+        case 10: return kToken + std::string(static_cast<std::size_t>(n), 'x');                 // the token followed by n more characters
+        case 11: return std::string(static_cast<std::size_t>(n), 'y') + kToken;                 // n characters, then the token
+        case 12: return kToken.size() > static_cast<std::size_t>(n) ? kToken.substr(0, kToken.size() - static_cast<std::size_t>(n)) : std::string("z");  // the token without its last n characters
         default: return "";
     }
 }
-const char* token_kind_name[] = {"exact", "missing", "wrong", "prefix", "suffix", "case_changed", "trailing_space", "empty", "doubled", "two_wrong_headers"};
+const char* token_kind_name[] = {"exact", "missing", "wrong", "prefix", "suffix", "case_changed", "trailing_space", "empty", "doubled", "two_wrong_headers", "extended_by_n", "prefixed_by_n", "shortened_by_n"};
 
 // ================================================================ C27
 Plan gen_c27(sk::Rng& r, Tier) {
     Plan p;
     gen_w4_knobs(p, r);
+    p.knobs["token_len"] = r.chance(1, 2) ? 15 : r.pick<std::int64_t>({1, 8, 16, 32, 255, 256, 257, 512});
+    p.knobs["token_seed"] = static_cast<std::int64_t>(r.below(1u << 30));
     const int n = static_cast<int>(r.range(3, 9));
     for (int i = 0; i < n; ++i) {
         Op op;
         op.k = "req";
-        // command (0 STORE, 1 FETCH stream, 2 FETCH to daemon-side path, 3 STOP), token kind, token header position, fragments
-        op.a = {static_cast<std::int64_t>(r.below(4)), r.chance(1, 4) ? 0 : r.range(1, 9), static_cast<std::int64_t>(r.below(3)), r.pick<std::int64_t>({1, 1, 3, 17}), static_cast<std::int64_t>(r.below(2))};  // last: FETCH names a manifest the daemon has never seen
+        // command (0 STORE, 1 FETCH stream, 2 FETCH to daemon-side path, 3 STOP), token kind, token header position, fragments,
+        // whether FETCH names a manifest the daemon has never seen, n for the length-changing token kinds
+        op.a = {static_cast<std::int64_t>(r.below(4)), r.chance(1, 4) ? 0 : r.range(1, 12), static_cast<std::int64_t>(r.below(3)), r.pick<std::int64_t>({1, 1, 3, 17}), static_cast<std::int64_t>(r.below(2)),
+                r.pick<std::int64_t>({1, 2, 16, 255, 256, 257, 512, 768, 1024, 4096})};
         p.ops.push_back(op);
     }
     return p;
@@ -44,6 +60,7 @@ Plan gen_c27(sk::Rng& r, Tier) {
 void exec_c27(const Plan& p, Ctx& ctx) {
     capture_reset();
     Daemon d;
+    const std::string kToken = run_token(p);
     d.token = kToken;
     d.extra_args = {"--min-ttl", "5", "--max-ttl", "7200", "--default-ttl", "600"};
     sk::fs_log_enable(true);
@@ -101,7 +118,8 @@ void exec_c27(const Plan& p, Ctx& ctx) {
         ++ctx.ops_done;
         if (stopped) break;
         const int cmd = static_cast<int>(op.at(0)), kind = static_cast<int>(op.at(1)), pos = static_cast<int>(op.at(2)), frag = static_cast<int>(op.at(3));
-        const bool authentic = kind == 0;
+        // authentic = a single TOKEN header whose value is exactly the configured token (a variant may coincide with it, e.g. a case change of a token without letters)
+        const bool authentic = kind != 1 && kind != 9 && token_variant(kind, kToken, op.at(5, 1)) == kToken;
         std::vector<std::pair<std::string, std::string>> fields;
         std::vector<std::uint8_t> body;
         std::string out_path;
@@ -119,7 +137,7 @@ void exec_c27(const Plan& p, Ctx& ctx) {
         }
         std::vector<std::pair<std::string, std::string>> token_fields;
         if (kind == 9) token_fields = {{"TOKEN", "wrong-one"}, {"TOKEN", "wrong-two"}};
-        else if (kind != 1) token_fields = {{pos == 2 ? "token" : "TOKEN", token_variant(kind)}};
+        else if (kind != 1) token_fields = {{pos == 2 ? "token" : "TOKEN", token_variant(kind, kToken, op.at(5, 1))}};
         if (pos == 0) fields.insert(fields.begin(), token_fields.begin(), token_fields.end());
         else fields.insert(fields.end(), token_fields.begin(), token_fields.end());
         ctx.probe(std::string("sent_") + (cmd == 0 ? "store" : cmd == 1 ? "fetch_stream" : cmd == 2 ? "fetch_out" : "stop") + (authentic ? "_auth" : "_unauth"));
@@ -182,7 +200,7 @@ void exec_c27(const Plan& p, Ctx& ctx) {
 Scenario make_c27() {
     Scenario s;
     s.id = "C27"; s.world = "W4"; s.level = "exploration";
-    s.technique = "deterministic simulation: the real `eph serve` main (Node + ControlServer + serve loop) runs as a simulated process with a control token; a scripted client on another simulated host sends STORE / FETCH (streamed and to a daemon-side path) / STOP with missing, wrong, prefix, suffix, case-changed, padded, empty and doubled tokens in any header position and fragmentation; replies, the daemon's file operations, LIST and liveness are checked after each";
+    s.technique = "deterministic simulation: the real `eph serve` main (Node + ControlServer + serve loop) runs as a simulated process with a control token; a scripted client on another simulated host sends STORE / FETCH (streamed and to a daemon-side path) / STOP with missing, wrong, prefix, suffix, case-changed, padded, empty, doubled tokens and tokens extended, prefixed or shortened by n characters (n around 1, 255..257, 512..4096; configured token length 1..512) in any header position and fragmentation; replies, the daemon's file operations, LIST and liveness are checked after each";
     s.real_components = {"src/main.cpp serve path (real main())", "ControlServer (parse_request, handle_store, handle_fetch, handle_stop)", "Node", "SessionManager/RelayClient threads of the daemon"};
     s.stub_components = {"OS: threads -> fibers, sockets -> simulated TCP, clock, entropy, file seam", "control clients are scripted raw requests"};
     s.assumptions = {"'registered' is judged by looking at the daemon Node's manifest cache and swarm plans (reached through the control-server object main() constructs; no change to the repository)",
